@@ -86,6 +86,9 @@ func c06fixed() []c06case {
 		out = append(out, c06case{Class: "deep-nesting", Stream: append(bytes.Repeat([]byte("*1\r\n"), d), []byte(":1\r\n")...)})
 		out = append(out, c06case{Class: "deep-nesting", Stream: append(bytes.Repeat([]byte("*2\r\n:0\r\n"), d/2), []byte(":1\r\n")...)})
 	}
+	// beyond the 1 MiB bound of the quantifier: nesting as deep as one client can send in 16 MiB
+	out = append(out, c06case{Class: "deep-nesting-16MiB", Stream: bytes.Repeat([]byte("*1\r\n"), 4<<20)})
+	out = append(out, c06case{Class: "deep-nesting-16MiB", Stream: append(bytes.Repeat([]byte("*1\r\n"), 4<<20), []byte(":1\r\n")...)})
 	// wide arrays within 1 MiB
 	out = append(out, c06case{Class: "wide", Stream: append([]byte("*200000\r\n"), bytes.Repeat([]byte(":1\r\n"), 200000)...)})
 	out = append(out, c06case{Class: "wide", Stream: append([]byte("*200001\r\n"), bytes.Repeat([]byte(":1\r\n"), 200000)...)})
